@@ -309,7 +309,7 @@ def _same_expr(prog, f, a, b, depth=0):
         return True
     if depth > 5 or not (a.is_inst and b.is_inst) or a.op != b.op:
         return False
-    if a.op in ("add", "mul", "sub", "shl", "and", "or") and len(a.ops) == len(b.ops):
+    if a.op in ("add", "mul", "sub", "shl", "and", "or", "lshr", "ashr", "udiv", "urem", "xor") and len(a.ops) == len(b.ops):
         if all(_same_expr(prog, f, x, y, depth + 1) for x, y in zip(a.ops, b.ops)):
             return True
         if a.op in ("add", "mul", "and", "or") and len(a.ops) == 2:
